@@ -142,11 +142,12 @@ struct Analysis {
 
 inline Analysis analyse(const std::string& text, const ParseOptions& opts, int upTo = P_Check,
                         SyntaxTree::SyntaxCategory cat = SyntaxTree::SyntaxCategory::Any,
-                        TextCompleteness compl_ = TextCompleteness::Fragment)
+                        TextCompleteness compl_ = TextCompleteness::Fragment,
+                        const PlatformOptions* platform = nullptr)
 {
     Analysis a;
     auto tree = SyntaxTree::parseText(SourceText(text), TextPreprocessingState::Preprocessed, compl_, opts, "<psyh>", cat);
-    a.comp = Compilation::create("psyh");
+    a.comp = platform ? Compilation::create("psyh", *platform) : Compilation::create("psyh");
     a.tree = tree.get();
     a.comp->addSyntaxTree(std::move(tree));
     if (upTo >= P_Bind && a.tree->hasTranslationUnitAsRootNode()) {
